@@ -14,21 +14,32 @@ import (
 
 	"github.com/attestantio/dirk/rules"
 	standardrules "github.com/attestantio/dirk/rules/standard"
+	"github.com/attestantio/dirk/services/accountmanager"
+	standardaccountmanager "github.com/attestantio/dirk/services/accountmanager/standard"
 	"github.com/attestantio/dirk/services/checker"
 	staticchecker "github.com/attestantio/dirk/services/checker/static"
 	"github.com/attestantio/dirk/services/fetcher"
 	memfetcher "github.com/attestantio/dirk/services/fetcher/mem"
+	"github.com/attestantio/dirk/services/lister"
+	standardlister "github.com/attestantio/dirk/services/lister/standard"
 	"github.com/attestantio/dirk/services/locker"
 	syncmaplocker "github.com/attestantio/dirk/services/locker/syncmap"
+	staticpeers "github.com/attestantio/dirk/services/peers/static"
+	"github.com/attestantio/dirk/services/process"
+	standardprocess "github.com/attestantio/dirk/services/process/standard"
 	"github.com/attestantio/dirk/services/ruler"
 	goruler "github.com/attestantio/dirk/services/ruler/golang"
+	mocksender "github.com/attestantio/dirk/services/sender/mock"
 	"github.com/attestantio/dirk/services/signer"
 	standardsigner "github.com/attestantio/dirk/services/signer/standard"
 	"github.com/attestantio/dirk/services/unlocker"
 	localunlocker "github.com/attestantio/dirk/services/unlocker/local"
+	"github.com/attestantio/dirk/services/walletmanager"
+	standardwalletmanager "github.com/attestantio/dirk/services/walletmanager/standard"
 	"github.com/google/uuid"
 	"github.com/rs/zerolog"
 	e2types "github.com/wealdtech/go-eth2-types/v2"
+	distributed "github.com/wealdtech/go-eth2-wallet-distributed"
 	nd "github.com/wealdtech/go-eth2-wallet-nd/v2"
 	scratch "github.com/wealdtech/go-eth2-wallet-store-scratch"
 	e2wtypes "github.com/wealdtech/go-eth2-wallet-types/v2"
@@ -234,6 +245,10 @@ type SignerOpts struct {
 	AdminIPs    []string
 	AcctPasses  []string
 	Wrap        Wrap
+	// Full also builds lister, account manager, wallet manager and a single-instance process service.
+	Full bool
+	// DistWallets are created as distributed wallets.
+	DistWallets []string
 }
 
 // SignerRig is a full real signing stack.
@@ -254,6 +269,10 @@ type SignerRig struct {
 	RulesI      rules.Service
 	Ruler       ruler.Service
 	Signer      signer.Service
+	Lister      lister.Service
+	AcctMgr     accountmanager.Service
+	WalletMgr   walletmanager.Service
+	Process     process.Service
 	nacct       int
 	rulesCancel context.CancelFunc
 }
@@ -283,12 +302,17 @@ func NewSignerRig(o SignerOpts) (*SignerRig, error) {
 			return nil, err
 		}
 	}
+	for _, w := range o.DistWallets {
+		if _, err := distributed.CreateWallet(r.Ctx, w, r.WStore, enc); err != nil {
+			return nil, err
+		}
+	}
 	var err error
 	r.RealFetch, err = memfetcher.New(r.Ctx, memfetcher.WithStores([]e2wtypes.Store{r.WStore}), memfetcher.WithEncryptor(enc))
 	if err != nil {
 		return nil, err
 	}
-	for _, w := range o.Wallets {
+	for _, w := range append(append([]string{}, o.Wallets...), o.DistWallets...) {
 		wl, err := r.RealFetch.FetchWallet(r.Ctx, w)
 		if err != nil {
 			return nil, err
@@ -364,6 +388,47 @@ func (r *SignerRig) openRules() error {
 		standardsigner.WithChecker(r.Checker),
 		standardsigner.WithFetcher(r.Fetcher),
 		standardsigner.WithRuler(r.Ruler))
+	if err != nil {
+		return err
+	}
+	if !r.opts.Full {
+		return nil
+	}
+	r.Lister, err = standardlister.New(r.Ctx, standardlister.WithFetcher(r.Fetcher), standardlister.WithChecker(r.Checker), standardlister.WithRuler(r.Ruler))
+	if err != nil {
+		return err
+	}
+	peers, err := staticpeers.New(r.Ctx, staticpeers.WithPeers(map[uint64]string{1: "signer-test01:8881"}))
+	if err != nil {
+		return err
+	}
+	r.Process, err = standardprocess.New(r.Ctx,
+		standardprocess.WithChecker(r.Checker),
+		standardprocess.WithUnlocker(r.Unlocker),
+		standardprocess.WithSender(mocksender.New(1)),
+		standardprocess.WithFetcher(r.Fetcher),
+		standardprocess.WithEncryptor(PlainEncryptor{}),
+		standardprocess.WithPeers(peers),
+		standardprocess.WithID(1),
+		standardprocess.WithStores([]e2wtypes.Store{r.WStore}),
+		standardprocess.WithGenerationPassphrase([]byte("pass")))
+	if err != nil {
+		return err
+	}
+	r.AcctMgr, err = standardaccountmanager.New(r.Ctx,
+		standardaccountmanager.WithUnlocker(r.Unlocker),
+		standardaccountmanager.WithChecker(r.Checker),
+		standardaccountmanager.WithFetcher(r.Fetcher),
+		standardaccountmanager.WithRuler(r.Ruler),
+		standardaccountmanager.WithProcess(r.Process))
+	if err != nil {
+		return err
+	}
+	r.WalletMgr, err = standardwalletmanager.New(r.Ctx,
+		standardwalletmanager.WithUnlocker(r.Unlocker),
+		standardwalletmanager.WithChecker(r.Checker),
+		standardwalletmanager.WithFetcher(r.Fetcher),
+		standardwalletmanager.WithRuler(r.Ruler))
 	return err
 }
 
